@@ -218,7 +218,7 @@ theorem single_int_harmless {v : Variant} {g sw : Bool} {f n t0 : Nat} {ls : Lis
     have hex := (ha.ex (by rw [hx]; rfl)).1
     by_cases hz : ls.countP Label.isSigwait = 0
     · rcases (hj.zero hz).2 with h | h | h <;> rw [hex] at h <;> cases h
-    · rcases hj.one (by omega) with h | h | h | ⟨k, h⟩ | h | h
+    · rcases hj.one (by omega) with h | h | h | h | h | h
       · rw [hex] at h; cases h.1
       · rw [hex] at h; cases h
       · rw [hex] at h; cases h
